@@ -357,6 +357,8 @@ T_LEAF = T_LEAF + T("Leaf", "get_set_cc", "size_set_cc", "bc_set_cc", "bi_set_cc
            kind="law of the regenerated Go accessors themselves: a one-bit setter sets exactly its flag and leaves the other flags unchanged (every word)")
 T_LEAF = T_LEAF + T("Leaf", "cc_set_version", "cc_set_idx", "size_set_version", "size_set_idx", "bc_set_version", "bc_set_idx", "bi_set_version", "bi_set_idx",
            kind="law of the regenerated Go accessors themselves: VersionSet / BlockSizeIndexSet leave the four option flags unchanged (every word, every argument)")
+T_LEAF = T_LEAF + T("Leaf", "idx_arith", "get_set_idx", "get_set_idx_small",
+           kind="law of the regenerated Go accessors themselves: BlockSizeIndex() reads back what BlockSizeIndexSet stored (every previous word)")
 T_POOL = T("Pool", "reach_inv", "get_size", "inv_put", "inv_get", "inv_drop", "put_foreign", "put_slice",
            kind="the shared block-buffer pools keep their size classes after every Get/Put/drop history (what the Reader's cap(b.data) bound rests on)")
 CR_FAM = dict(family="cr", variant="asm", kview=kview_w, nontrivial=nontrivial_sess,
